@@ -74,6 +74,7 @@ theorem step_exact (o : Ops α) (g : GridM α) (fn : Func) (axname : String) (f 
     (k : Nat) (hk : arr.dimIdx dimIn = some k)
     (n : Nat) (hn : 2 ≤ n) (hshape : arr.shape.getD k 0 = f.len n)
     (r : Rule) (hr : ruleInForceCall ax boundary = some r)
+    (hwords : boundaryWordsOk g boundary = true)
     (hres : stepAxis o Gen.gridops g fn.toString axname f t boundary fillkw arr = .ok res) :
     res.dims = arr.dims.eraseIdx k ++ [dimOut] ∧
     res.shape = arr.shape.eraseIdx k ++ [t.len n] ∧
@@ -97,7 +98,8 @@ theorem step_exact (o : Ops α) (g : GridM α) (fn : Func) (axname : String) (f 
   have hspeclen : ∀ (rr : Rule) (xs : List α),
       (specLine (fn.op o) rr (fillInForceCall ax fillkw) f t n xs).length = t.len n := by
     intro rr xs; simp [specLine]
-  simp only [stepAxis, hsel, hax, hin, hk, hout, hshape, bind, Except.bind, pure, Except.pure] at hres
+  have hwf : boundaryWordsOk g boundary = false ↔ False := by simp [hwords]
+  simp only [stepAxis, hsel, hax, hin, hk, hout, hshape, hwf, if_false] at hres
   have hzero : e.lo = 0 ∧ e.hi = 0 → ∀ xs : List α,
       op1d o e Rule.periodic (fillInForceCall ax fillkw) xs =
       op1d o e r (fillInForceCall ax fillkw) xs := by
